@@ -121,12 +121,16 @@ def run(ctx):
     # 5. coverage
     by_kind = collections.Counter(t["m"]["kind"] for t in trace)
     by_step = collections.Counter(t["step"] for t in trace)
+    # guards the *model* takes on the executed cases (observed = predicted on every unflagged line)
+    predicted = {fr["l"]: fr["expected"]["step"] for fr in flagged if "expected" in fr}
+    by_model_step = collections.Counter(predicted.get(i + 1, t["step"]) for i, t in enumerate(trace))
+    ctx.extra["cases_by_model_step"] = dict(by_model_step)
     ctx.extra["cases_by_mutation"] = dict(by_kind)
     ctx.extra["cases_by_step"] = dict(by_step)
     if prop == "C28":
-        missing = [s for s in REQUIRED_STEPS if by_step.get(s, 0) == 0]
+        missing = [s for s in REQUIRED_STEPS if by_model_step.get(s, 0) == 0]
         if missing:
-            raise vlib.Infra("guards never exercised on the real code: %s" % missing)
+            raise vlib.Infra("guards of the model never exercised by the executed cases: %s" % missing)
         mutated = [t for t in trace if t["m"]["kind"] != "none"]
         ctx.extra["mutated_rejected"] = sum(1 for t in mutated if t["status"] in ("401", "bodyerr"))
         ctx.extra["mutated_accepted"] = sum(1 for t in mutated if t["status"] == "ok")
